@@ -498,12 +498,20 @@ def A4(ctx: Ctx) -> RuleResult:
     lit = m.cls('HplLiteral', 'A4')
     fi = lit.resolve('__attrs_post_init__')
     self_l = Sym('self', 'HplLiteral')
-    outs = ctx.ev.run(fi, {'self': self_l}, self_cls=lit)
+    # (a helper that picks the type from a table of (python type, data type) rows is looked through)
+    outs = Evaluator(ctx.model, inline=helper_inline((fi.module.name,))).run(fi, {'self': self_l}, self_cls=lit)
     seen = {}
+    cases = []
     for o in outs:
         vals = [e.args[2] for e in o.effects if isinstance(e, Call) and isinstance(e.func, Ext) and e.func.name == 'object.__setattr__' and len(e.args) == 3 and e.args[1] == Const('data_type')]
-        fs = flagset(ctx, vals[-1]) if vals else None
-        gs = norm_guards(o.guards)
+        if not vals:
+            cases.append((o.guards, None))
+            continue
+        for g2, leaf in alternatives(vals[-1]):
+            cases.append((tuple(o.guards) + tuple(g2), leaf))
+    for guards_, leaf in cases:
+        fs = flagset(ctx, leaf) if leaf is not None else None
+        gs = norm_guards(guards_)
         pos = ' '.join(repr(t) for t, pol in gs if pol)
         if fs is None:
             r.fail('HplLiteral.__attrs_post_init__', f'path [{guards_repr(gs)}] does not set a constant data_type', fi.where)
